@@ -11,7 +11,7 @@ func C06Scenario() *Scenario {
 	return &Scenario{Prop: "C06", Init: func(w *World) {
 		t := w.T
 		methods := []string{"InPlace", "", "OnDelete", "Recreate", "RollingInPlace", "RollingRecreate", "Sideways"}
-		s := NewCompositeSetup(w, GenOpts{Methods: methods, MaxWorkers: 1, MaxParents: 1, MaxReplicas: 3, GenSel: 0, Finalize: -1, OneKind: false})
+		s := NewCompositeSetup(w, GenOpts{Methods: methods, MaxWorkers: 1, MaxParents: 1, MaxReplicas: 3, GenSel: 0, Finalize: 0, OneKind: false})
 		// start from an empty neighbourhood: remove generated initial objects
 		for _, c := range s.allChildren() {
 			res := resOf(w, c)
@@ -25,14 +25,32 @@ func C06Scenario() *Scenario {
 			}
 		})
 		perturbations := []string{"equal", "owned-drift", "owned-removed", "foreign-drift", "status-drift", "foreign-label", "pending-deletion", "undesired", "desired-change"}
+		if s.Cfg.Finalize {
+			// the parent is deleted; the finalize hook drops every child
+			perturbations = append(perturbations, "parent-finalizing", "parent-finalizing")
+		}
 		pert := perturbations[t.Pick(len(perturbations), "perturbation")]
 		w.Cfg["perturbation"] = pert
+		// in a third of the runs the server refuses some in-place updates of children
+		// (validation, immutable field, overload): the decision table must hold all the same
+		faultsLeft := 0
+		if t.Pick(3, "updatefaults") == 2 {
+			faultsLeft = 1 + t.Pick(3, "nfaults")
+		}
+		w.Cfg["updateFaults"] = fmt.Sprint(faultsLeft)
+		faulty := &Policy{Name: "refuse-updates", APIFault: 700, APIFaults: []string{"422", "500"}, FaultFilter: func(r *ReqRec) bool {
+			if faultsLeft > 0 && r.Verb == "update" && r.Res != nil && s.Cfg.Rule(r.Res) != nil {
+				faultsLeft--
+				return true
+			}
+			return false
+		}}
 		var target childID
 		pertStep := 0
 		rule := func() *ChildRule { return s.Cfg.Rule(target.res) }
 		w.Stages = []Stage{
 			{Name: "converge", Quiet: true, MaxSteps: 3000},
-			{Name: "perturb", Quiet: true, MaxSteps: 3000,
+			{Name: "perturb", Quiet: true, MaxSteps: 3000, Policy: faulty,
 				Do: func(w *World) {
 					pertStep = w.step
 					po := p.Get(w)
@@ -85,6 +103,8 @@ func C06Scenario() *Scenario {
 						w.Store.Create(res, target.ns, n, "user")
 					case "desired-change":
 						EditObject(w, p.Res, p.NS, p.Name, "user", func(o Object) { setPath(o, "changed", "spec", "template", "color") })
+					case "parent-finalizing":
+						w.Store.Delete(p.Res, p.NS, p.Name, DeleteOpts{Propagation: "Background"}, "user")
 					}
 				},
 				Check: func(w *World) *Violation {
@@ -160,6 +180,16 @@ func c06Check(w *World, s *Setup, p ParentRef, target childID, pert string, pert
 			return v
 		}
 		return noWrite(onOthers, "the other children")
+	case "parent-finalizing":
+		// every child is dropped by the finalize answer: deleted (options judged above), never updated
+		all := append(append([]*ReqRec{}, onTarget...), onOthers...)
+		if count(all, "update")+count(all, "patch")+count(all, "create") > 0 {
+			return bad("unexpected-write", "children of a parent that is being finalized with an empty answer are only deleted")
+		}
+		if count(all, "delete") == 0 {
+			return bad("undesired-child-not-deleted", "the finalize answer desires no child, yet none was deleted")
+		}
+		return nil
 	case "undesired":
 		if count(onTarget, "delete") == 0 || count(onTarget, "update")+count(onTarget, "patch") > 0 {
 			return bad("undesired-child-not-deleted", "an owned child that is not desired must be deleted")
